@@ -56,7 +56,7 @@ ASSUMPTIONS = [
     'extra[dtype_kind_differs], not judged',
     'np.histogram is called with explicit bin edges; str() is judged only when every line parses as "name: [v v ...]" with '
     'exactly contig-size values',
-    'interval sets contain non-empty intervals inside their contig; zero-length intervals are not explored',
+    'interval sets contain intervals inside their contig; zero-length intervals [p,p) (p inside the contig, covering no base) are explored in one slice of the iv section only',
     'GenomicRunLengthArray.from_intervals is judged directly only for strictly separated intervals (what get_boolean_mask '
     'passes), with the default / a scalar value and with one value per interval (the documented `values: ArrayLike`); touching '
     'intervals are executed and counted in extra, not judged',
@@ -119,12 +119,14 @@ def _iv_slices(tier, seed):
     if tier == 'quick':
         return [('a:<=2 contigs size<=3, 3 contigs size<=2; <=2 intervals', M.genomes(2, 3) + M.genomes(3, 2, 3), 2, 'sorted+reversed'),
                 ('b:1 contig size 4; <=3 intervals', [(4,)], 3, 'sorted+reversed'),
-                ('c:2 contigs size<=2; <=3 intervals in EVERY order (also not grouped by contig)', M.genomes(2, 2), 3, 'all')]
+                ('c:2 contigs size<=2; <=3 intervals in EVERY order (also not grouped by contig)', M.genomes(2, 2), 3, 'all'),
+                ('d:2 contigs size<=2; <=3 intervals of which >= 1 zero-length [p,p), every order', M.genomes(2, 2), 3, 'all+zero')]
     return [('a1:<=2 contigs size<=3; <=3 intervals', M.genomes(2, 3), 3, 'all'),
             ('a2:3 contigs size<=3; <=2 intervals', M.genomes(3, 3, 3), 2, 'all'),
             ('a3:3 contigs size<=2; <=3 intervals', M.genomes(3, 2, 3), 3, 'all'),
             ('b:<=2 contigs up to size 5 (one >=4); <=2 intervals', [g for g in M.genomes(2, 5) if max(g) >= 4], 2, 'sorted+reversed'),
-            ('c:4 contigs size<=2; <=2 intervals', M.genomes(4, 2, 4), 2, 'sorted+reversed')]
+            ('c:4 contigs size<=2; <=2 intervals', M.genomes(4, 2, 4), 2, 'sorted+reversed'),
+            ('d:<=2 contigs size<=3; <=3 intervals of which >= 1 zero-length [p,p), every order', M.genomes(2, 3), 3, 'all+zero')]
 
 
 def _pairs_slices(tier, seed):
@@ -745,6 +747,15 @@ def _orders(ivs, orders):
 
 def _iv_cases(g, kmax, orders):
     allv = M.all_intervals(g)
+    if orders == 'all+zero':
+        # also zero-length intervals [p,p) with p inside the contig (they cover no base); only sets that contain one
+        zero = [(ci, p, p) for ci, s in enumerate(g) for p in range(s)]
+        for k in range(1, kmax + 1):
+            for ms in itertools.combinations_with_replacement(allv + zero, k):
+                if any(a == b for _, a, b in ms):
+                    for o in _orders(ms, 'all'):
+                        yield o
+        return
     for k in range(0, kmax + 1):
         for ms in itertools.combinations_with_replacement(allv, k):
             for o in _orders(ms, orders):
